@@ -87,7 +87,7 @@ pub struct MutableFrame { pub f: Frame }
 impl MutableFrame {
 	#[verifier::external_body]
 	pub fn with_capacity(capacity: usize, version: Version, ports: &[PortOccupancy]) -> (res: MutableFrame)
-		ensures capacity == 0 ==> res.f == empty_frames(version, ports@)
+		ensures res.f == empty_frames(version, ports@)  // capacity only reserves space
 	{ unimplemented!() }
 	#[verifier::external_body]
 	pub fn into(self) -> (res: Frame) ensures res == self.f { unimplemented!() }
@@ -312,6 +312,7 @@ pub open spec fn step(m: RModel, e: TarEntry, skip_frames: bool) -> Step {
 		match m.start {
 			None => Step::Fail,
 			Some(s) => if skip_frames { Step::Stop(RModel { frames: Some(FramesSrc::Empty(s.slippi.version, occupancy_spec(s))), ..m }) } /*[C10.slpp_skip_frames_gives_empty_frames]*/
+				else if e.data.len() != e.header.size { Step::Fail } /*[C07.cut_frames_member_rejected]*/
 				else { match arrow_src(e.data) { Some(a) => Step::Stop(RModel { frames: Some(FramesSrc::Batch(a, s.slippi.version)), ..m }), None => Step::Fail } },
 		}
 	} else { Step::Continue(m) } /*[C18.unknown_members_ignored]*/
@@ -344,7 +345,7 @@ pub open spec fn archive_shaped(items: Seq<ArchiveItem>) -> bool {
 	forall|i: int| 0 <= i < items.len() && (#[trigger] items[i]) is Good ==> file_shaped(items[i]->Good_0.data)
 }
 
-//@fn src/io/peppi/de.rs | - | read | ret=res | rules=R22,R5,R6,R6b | sub=/path.file_name().and_then(|n| n.to_str())/path.file_name_str()/ | sub=/super::assert_current_version/peppi::assert_current_version/
+//@fn src/io/peppi/de.rs | - | read | ret=res | rules=R22,R5,R6,R6b | sub=/path.file_name().and_then(|n| n.to_str())/path.file_name_str()/ | sub=/read_arrow_frames(&buf[..], version)?/read_arrow_frames(buf.as_slice(), version)?/ | sub=/super::assert_current_version/peppi::assert_current_version/
 	requires r.inv(), archive_shaped(archive_items(r.rest())),
 	ensures
 		(res is Ok) == ({ let out = run(archive_items(r.rest()), 0, init_model(), skip_of(opts)); out is Some && finishable(out->Some_0) }) /*[C18.reader_accepts_exactly]*/,
@@ -371,7 +372,7 @@ pub open spec fn archive_shaped(items: Seq<ArchiveItem>) -> bool {
 		let s = start->Some_0;
 		fsrc = Some(if sk { FramesSrc::Empty(s.slippi.version, occupancy_spec(s)) } else { FramesSrc::Batch(arrow_src(items[k]->Good_0.data)->Some_0, s.slippi.version) });
 	}
-//@before let file = entry
+//@before let mut file = entry
 	proof {
 		let k = items.len() - it__.rem@.len() - 1;
 		assert(items.subrange(k, items.len() as int)[0] == items[k]);
@@ -470,7 +471,7 @@ pub open spec fn libs_roundtrip() -> bool {
 	&&& forall|p: peppi::Peppi| #[trigger] peppi_parse(json_peppi(p)) == Some(p)
 	&&& forall|m: JsMap| #[trigger] value_parse(json_metadata(Some(m))) == Some(serde_json::Value::Object(m))
 	&&& value_parse(json_metadata(None)) == Some(serde_json::Value::Null)
-	&&& forall|a: StructArray, c: Option<Compression>| #[trigger] arrow_src(ipc_file(a, c)) == Some(a)
+	&&& forall|a: StructArray, c: Option<Compression>| #[trigger] arrow_src(ipc_file(a, c)) == Some(a) && ipc_file(a, c).len() <= usize::MAX
 }
 // the game is what parsing its own raw blocks gives (true of every game the readers return: C05)
 pub open spec fn raw_blocks_consistent(game: Game) -> bool {
